@@ -13,6 +13,7 @@ import NucsProofs.Examples.Tsp
 import NucsProofs.Examples.Golomb
 import NucsProofs.Examples.Quasigroup
 import NucsProofs.Examples.Sports
+import NucsProofs.Examples.Counts
 /-!
   C20 — shipped models yield only valid combinatorial objects, with the known counts.
 
@@ -30,6 +31,15 @@ import NucsProofs.Examples.Sports
   ((b∗a)∗b)∗b = a), `C20_sports` (+ `_sb`, `_sb_valid`, `_every_pair_once`, `_once_a_week`,
   `_period_bounds`; n even).  With C01/C02: every solution the solver produces for these models is a
   valid object and every valid object is produced exactly once.  All 15 shipped models are covered.
-  Not proved: literature COUNTS, preservation of satisfiability and optimum by symmetry breaking
-  (tested: the kernel cannot enumerate 8-queens in reasonable time).
+  KNOWN COUNTS (NucsProofs/Examples/Counts.lean, every evaluation by `decide +kernel`, no axiom added):
+  `C20_count_queens_4…8` (2, 10, 4, 40, 92), `C20_count_latinSquare_2/3` (2, 12), `C20_count_magicSequence_4…7`
+  with the explicit lists, `C20_count_schur_3/4`, `C20_count_schur_sb_4` (17, the test-suite number),
+  `C20_count_golomb_4_optimum` (optimal length 6): each says `∃ L, L.Nodup ∧ (∀ σ, σ ∈ L ↔ Valid σ) ∧ L.length = k`.
+  The small ones are obtained by running the MODEL'S SEARCH in the kernel and transporting the result through
+  C02/C03 and `Sol ↔ Valid`; queens 5–8 and Latin squares of order 3 by a separately verified enumerator of the
+  `Valid` predicate, tied back to the solver by `C20_solver_count` (any admitted configuration returns exactly
+  that many vectors: `C20_solver_count_queens_8`).
+  Not proved: the larger literature counts, preservation of satisfiability and optimum by symmetry
+  breaking in general (tested).  Noted by the count proofs: for ODD n the shipped symmetry-breaking Schur model
+  posts lexicographic_leq on 3n variables (an odd number), outside that constraint's documented shape.
 -/
